@@ -588,3 +588,35 @@ func StepNow() int {
 	}
 	return cur.steps
 }
+
+type idleWaiter struct{ self *Thread }
+
+//go:norace
+func (w idleWaiter) Ready() bool {
+	for _, th := range cur.threads {
+		if th == w.self || th.done || th.op == nil {
+			continue
+		}
+		if th.op.Timer {
+			continue
+		}
+		if _, isIdle := th.op.W.(idleWaiter); isIdle {
+			continue
+		}
+		if th.op.W.Ready() {
+			return false
+		}
+	}
+	return true
+}
+
+// WaitIdle blocks the calling (harness) thread until no other non-timer thread
+// can run: everything the system does in reaction to earlier inputs is done.
+//
+//go:norace
+func WaitIdle() {
+	if cur == nil {
+		return
+	}
+	Block(&Op{Kind: "hwait-idle", W: idleWaiter{cur.running}})
+}
